@@ -261,7 +261,8 @@ def kernelStep (op : List String) (impl : Option (List String)) : Option (String
         [("ig_guards", !kIsExc o),
          ("ig_guards", !(igSentinel x al) || kValIs o (-1)),
          ("ig_guards", igSentinel x al || !(x == 0) || kValIs o 0),
-         ("ig_far_tail_one", igSentinel x al || x == 0 ||
+         ("ig_inf_one", igSentinel x al || x == 0 || !x.isInf || kValIs o 1),
+         ("ig_far_tail_one", igSentinel x al || x == 0 || x.isInf ||
             !(DistKernels.igUseCF x al && DistKernels.igFactor x al g == 0) || kValIs o 1)])
     | none => some ("bad-op", "-")
   | ["k.qchisq", a, b] =>
